@@ -266,6 +266,51 @@ pub fn case_pretty(g: &[GridNum], op: &str, idx: &[usize]) -> String {
     s
 }
 
+/// first calls of the length-2 histories: failures part-way through an operation (a non-number
+/// after numbers of either exactness, division by exact zero after a ratio / an inexact prefix) and
+/// successful calls that exercise the reduction of ratios
+pub const FIRST_CALLS: &[&str] = &[
+    "(+ 1.5 'a)", "(+ 1 'a)", "(- 1/2 \"s\")", "(* 1.5 2 'a)", "(/ 1 0)", "(/ 1/2 0)", "(/ 1.5 2 0 3)", "(/ 0)", "(floor-quotient 1 0)", "(floor-remainder 7/2 0)", "(abs 'a)", "(floor \"1\")", "(ceiling 'a)", "(- 'a)",
+    "(/ 0 15)", "(* 65536/3 65536/5)", "(+ 2147483647 1)", "(* 1e38 10)", "(- -2147483648 1)", "(/ 6 4)",
+];
+const HISTORY_PROBES: &[&str] = &["1", "2", "1.5", "1/2", "-7/2", "0", "16777217", "3.0", "-3", "65536", "2/3", "7"];
+
+fn history_phase(sp: &Space, acc: &mut Acc) {
+    let mut it = setup_interp(&sp.g);
+    let probes: Vec<usize> = HISTORY_PROBES.iter().map(|t| sp.g.iter().position(|x| &x.text == t).unwrap_or_else(|| panic!("probe {} not in the grid", t))).collect();
+    for first in FIRST_CALLS {
+        for op in UNARY.iter().chain(BINARY) {
+            let unary = UNARY.contains(op) && !BINARY.contains(op);
+            for a in &probes {
+                for b in &probes {
+                    let idx = if unary { vec![*a] } else { vec![*a, *b] };
+                    // (whether the first call fails is not judged here)
+                    let _ = it.eval(first);
+                    let out = it.eval(&case_text(op, &idx));
+                    let args: Vec<RNum> = idx.iter().map(|k| sp.g[*k].val).collect();
+                    acc.evals += 1;
+                    acc.count("history: first call then probe", 1);
+                    if let Verdict::Bad(why) = judge(op, &args, &out) {
+                        acc.mismatch(
+                            Mismatch {
+                                idx: 999,
+                                case: format!("[after {}] {}", first, case_pretty(&sp.g, op, &idx)),
+                                expected: why,
+                                observed: format!("{}", out),
+                                payload: json!({"kind":"op","op":op,"operands": idx.iter().map(|k| sp.g[*k].text.clone()).collect::<Vec<_>>(), "after": first}),
+                            },
+                            None,
+                        );
+                    }
+                    if unary {
+                        break;
+                    }
+                }
+            }
+        }
+    }
+}
+
 pub fn run(ctx: &Ctx) -> i32 {
     let sp = Space::new(ctx.thorough());
     let total = sp.total();
@@ -318,6 +363,7 @@ pub fn run(ctx: &Ctx) -> i32 {
         },
     );
     acc.merge(acc0);
+    history_phase(&sp, &mut acc);
     report::finish(
         acc,
         RunInfo {
@@ -325,7 +371,7 @@ pub fn run(ctx: &Ctx) -> i32 {
             tier: ctx.tier_name(),
             seed: ctx.seed,
             exhaustive: true,
-            rule: format!("every unary op {:?} on G, every binary op {:?} on G^2, every 3-operand fold {:?} on G^3, |G|={} (literals and computed values); distinct = distinct (operation, outcome) pairs", UNARY, BINARY, FOLD3, sp.g.len()),
+            rule: format!("every unary op {:?} on G, every binary op {:?} on G^2, every 3-operand fold {:?} on G^3; every history (one of 20 first calls: failures part-way through an operation, successful calls that reduce ratios or leave the exact range) x (every unary / binary operation on a 12-number sub-grid) on one interpreter; |G|={} (literals and computed values); distinct = distinct (operation, outcome) pairs", UNARY, BINARY, FOLD3, sp.g.len()),
             bounds: json!({"grid": sp.g.len(), "unary": sp.n1, "binary": sp.n2, "fold3": sp.n3, "overflow_checks": cfg!(debug_assertions)}),
             assumptions: vec![
                 "reference numeric tower (refnum: i128 rationals, Rust f32 IEEE ops) is correct; self-tested against R7RS 6.2.6 examples".into(),
@@ -352,6 +398,9 @@ pub fn replay(p: &serde_json::Value) -> bool {
     let ops: Vec<String> = p["operands"].as_array().unwrap().iter().map(|x| x.as_str().unwrap().to_string()).collect();
     let args: Vec<RNum> = ops.iter().map(|t| g.iter().find(|x| &x.text == t).expect("grid text").val).collect();
     let text = format!("({} {})", op, ops.join(" "));
+    if let Some(first) = p["after"].as_str() {
+        println!("{} => {}", first, it.eval(first));
+    }
     let out = it.eval(&text);
     let mut rr = RefRun::new();
     println!("{} => {}   reference: {:?}", text, out, reference(op, &args, &mut rr).map(|r| r.to_string()));
